@@ -365,58 +365,64 @@ Fixpoint block_loop (rec : matcher) (b : bspec) (classes : list lcls) (start_idx
 
 Definition loop_bound (nclasses : nat) (s : est) : nat := (nclasses + 2) * (length (stream s) + 2).
 
+(* BlockBase.match: the class list of the loop *)
+Definition block_classes (b : bspec) (s : est) : list lcls :=
+  map LC (b_subs b)
+  ++ (if procdir s then [LC (t_directive T)] else [])
+  ++ [LC (t_comment T); LC (t_include T)]
+  ++ (match b_end b with Some e => [LC e] | None => [] end) ++ [LCpp].
+
+(* BlockBase.match: the try block and everything after it *)
+Definition block_body (rec : matcher) (b : bspec) (content : list tree) (start_idx : nat)
+           (tn : option name) : M (option (list tree)) := fun s =>
+  let cl := block_classes b s in
+  match block_loop rec b cl start_idx (loop_bound (length cl) s)
+                   (mkLst content 0 false (b_if_hook b) (b_where_hook b)) s with
+  | (Raise e, s1) =>
+      (* except FortranSyntaxError (or, when t_cleanup_all, except Exception): clean up *)
+      if (match e with ESyntax => true | _ => t_cleanup_all T && is_exception e end) then
+        match tn with
+        | Some n => match (do_exit_scope ;;; do_remove n) s1 with
+                    | (Val _, s2) => (Raise e, s2)
+                    | (Raise e', s2) => (Raise e', s2)
+                    end
+        | None => (Raise e, s1)
+        end
+      else (Raise e, s1)
+  | (Val LAbort, s1) => (Val None, s1)
+  | (Val (LBreak content' had found_end), s1) =>
+      ((match tn with Some _ => do_exit_scope | None => ret tt end) ;;;
+       (if (negb had || (match b_end b with Some _ => negb found_end | None => false end))
+           && (match b_end b with Some _ => true | None => false end)
+        then (match tn with Some n => do_remove n | None => ret tt end) ;;;
+             lift (restore content') ;;; ret None
+        else
+          match content' with
+          | [] => ret None
+          | _ =>
+            match b_start b, b_end b with
+            | Some _, Some _ =>
+                let st := match nth_error content' start_idx with Some t => t | None => TBlock 0%N [] end in
+                let en := last content' (TBlock 0%N []) in
+                if mem (tcls en) (b_endall b) && c_has_name (entry (tcls en))
+                   && c_has_name (entry (tcls st))
+                then match unit_name (tinfo en) with
+                     | Some ne =>
+                         match unit_name (tinfo st) with
+                         | Some ns => if N.eqb ns ne then ret (Some content')
+                                      else if t_exits T then raise EExit else ret (Some content')
+                         | None => raise EOther
+                         end
+                     | None => ret (Some content')
+                     end
+                else ret (Some content')
+            | _, _ => ret (Some content')
+            end
+          end)) s1
+  end.
+
 (* BlockBase.match *)
 Definition block_match (rec : matcher) (b : bspec) : M (option (list tree)) := fun s0 =>
-  let classes s := map LC (b_subs b)
-                   ++ (if procdir s then [LC (t_directive T)] else [])
-                   ++ [LC (t_comment T); LC (t_include T)]
-                   ++ (match b_end b with Some e => [LC e] | None => [] end) ++ [LCpp] in
-  let body (content : list tree) (start_idx : nat) (tn : option name) : M (option (list tree)) := fun s =>
-    let cl := classes s in
-    match block_loop rec b cl start_idx (loop_bound (length cl) s)
-                     (mkLst content 0 false (b_if_hook b) (b_where_hook b)) s with
-    | (Raise e, s1) =>
-        (* except FortranSyntaxError (or, when t_cleanup_all, except Exception): clean up *)
-        if (match e with ESyntax => true | _ => t_cleanup_all T && is_exception e end) then
-          match tn with
-          | Some n => match (do_exit_scope ;;; do_remove n) s1 with
-                      | (Val _, s2) => (Raise e, s2)
-                      | (Raise e', s2) => (Raise e', s2)
-                      end
-          | None => (Raise e, s1)
-          end
-        else (Raise e, s1)
-    | (Val LAbort, s1) => (Val None, s1)
-    | (Val (LBreak content' had found_end), s1) =>
-        ((match tn with Some _ => do_exit_scope | None => ret tt end) ;;;
-         (if (negb had || (match b_end b with Some _ => negb found_end | None => false end))
-             && (match b_end b with Some _ => true | None => false end)
-          then (match tn with Some n => do_remove n | None => ret tt end) ;;;
-               lift (restore content') ;;; ret None
-          else
-            match content' with
-            | [] => ret None
-            | _ =>
-              match b_start b, b_end b with
-              | Some _, Some _ =>
-                  let st := match nth_error content' start_idx with Some t => t | None => TBlock 0%N [] end in
-                  let en := last content' (TBlock 0%N []) in
-                  if mem (tcls en) (b_endall b) && c_has_name (entry (tcls en))
-                     && c_has_name (entry (tcls st))
-                  then match unit_name (tinfo en) with
-                       | Some ne =>
-                           match unit_name (tinfo st) with
-                           | Some ns => if N.eqb ns ne then ret (Some content')
-                                        else if t_exits T then raise EExit else ret (Some content')
-                           | None => raise EOther
-                           end
-                       | None => ret (Some content')
-                       end
-                  else ret (Some content')
-              | _, _ => ret (Some content')
-              end
-            end)) s1
-    end in
   match b_start b with
   | Some stc =>
       (cm <- add_cid rec (length (stream s0) + 2) [] ;;
@@ -426,9 +432,9 @@ Definition block_match (rec : matcher) (b : bspec) : M (option (list tree)) := f
        | Some o =>
            let scoping := c_scoping (entry (tcls o)) in
            (if scoping then do_enter (scope_name (tinfo o)) else ret tt) ;;;
-           body (cm ++ [o]) (length cm) (if scoping then Some (scope_name (tinfo o)) else None)
+           block_body rec b (cm ++ [o]) (length cm) (if scoping then Some (scope_name (tinfo o)) else None)
        end) s0
-  | None => body [] 0 None s0
+  | None => block_body rec b [] 0 None s0
   end.
 
 (* Main_Program0.match *)
@@ -535,8 +541,7 @@ Fixpoint new (fuel : nat) (c : cls) : M (option tree) :=
             | KMain0 b => main0 (new f) b
             | KSeq cs => seq_match (new f) cs []
             | KLoop c' => fun s => loop_match (new f) c' (length (stream s) + 2) [] s
-            | KProgram => program_match (new f)
-            | _ => ret None
+            | _ => ret None   (* KAlt; KProgram is only ever constructed at the top: program_top *)
             end in
           match catch_nomatch m s with
           | (Raise e', s1) => (Raise e', s1)
@@ -551,10 +556,27 @@ Fixpoint new (fuel : nat) (c : cls) : M (option tree) :=
       end
   end.
 
+(* Base.__new__(Program, reader): the same steps as [new] with Program.match as the matcher.
+   Program is referenced by no other rule (the translator checks this and fails closed), so it is
+   kept out of [new]: the restore contract of every other rule does not hold for Program.match,
+   whose Main_Program0 fall-back deliberately continues from where the failed attempt stopped. *)
+Definition program_top (fuel : nat) (c : cls) : M (option tree) := fun s0 =>
+  let s := set_pcls [c] (tick s0) in
+  match catch_nomatch (program_match (new fuel)) s with
+  | (Raise e', s1) => (Raise e', s1)
+  | (Val (Some content), s1) => (Val (Some (TBlock c content)), s1)
+  | (Val None, s1) =>
+      match try_alts (new fuel) (c_alts (entry c)) s1 with
+      | (Val (Some t), s2) => (Val (Some t), s2)
+      | (Val None, s2) => if seen_code s2 then (Raise ENoMatch, s2) else (Val None, s2)
+      | (Raise e', s2) => (Raise e', s2)
+      end
+  end.
+
 (* Program.__new__: NoMatchError / InternalSyntaxError become FortranSyntaxError *)
 Inductive outcome := OTree (t : tree) | ONone | OSyntax (line : nat) | OEscape (e : exn).
 Definition program_new (fuel : nat) (cprogram : cls) (s : est) : outcome * est :=
-  match new fuel cprogram s with
+  match program_top fuel cprogram s with
   | (Val (Some t), s') => (OTree t, s')
   | (Val None, s') => (ONone, s')
   | (Raise ENoMatch, s') => (OSyntax (maxread s'), s')
